@@ -382,6 +382,15 @@ func (fr *frame) term(v Val) string {
 		if r, ok := v.ptr.refTerm(); ok {
 			return r
 		}
+		if fr.contract != nil && fr.contract.Safety["subptr-abstract"] {
+			// opt-in (contract: safety +subptr-abstract): the pointer becomes an opaque reference; what it
+			// points to is not connected to the sub-object any more. Only sound when nothing is
+			// written through such a pointer while the function under contract looks at the object.
+			r := fr.u.declConst(fr.tag("subptr"), "Int")
+			fr.u.assert("(> " + r + " 0)")
+			fr.u.note("%s: a pointer to a field / local sub-object is treated as an opaque reference (its target is not connected to the object)", fr.fn.Name())
+			return r
+		}
 		panic(unsupportedf("pointer into a local/sub-object used as a first-class value"))
 	}
 	if v.fn != nil {
